@@ -458,11 +458,12 @@ def normalize(img, scale_func=None, mode="all", error_on_divide_by_zero=True):
             "One or more the scale factors are 0.0 and thus these"
             "entries will be skipped during normalization."
         )
-        non_zero_denom = ~zero_denom
-        centered_pixels[non_zero_denom] = (
-            centered_pixels[non_zero_denom] / scale_factor[non_zero_denom]
-        )
-        return img.from_vector(centered_pixels)
+        # Skip the entries with a zero denominator by dividing them by one.
+        # This keeps the shape of scale_factor (a scalar or one value for
+        # mode='all', one value per channel for mode='per_channel'), so it
+        # broadcasts exactly as in the branch below.
+        safe_scale_factor = np.where(scale_factor == 0, 1, scale_factor)
+        return img.from_vector(centered_pixels / safe_scale_factor)
     else:
         return img.from_vector(centered_pixels / scale_factor)
 
